@@ -235,6 +235,49 @@ func checkF1(c *fw.Ctx) {
 				if strings.HasSuffix(arg, "input.RoomVersion") {
 					why = "caller contract: the room version of a locally known room"
 				}
+				if !ok && strings.HasPrefix(arg, "param:") && !strings.Contains(arg, ".") {
+					// a thin wrapper (a method of a registry object, a helper): judged at its call sites;
+					// a wrapper that is only reached through an interface has no static call sites
+					unexp := fn.Object() != nil && !fn.Object().Exported()
+					if rv := fn.Signature.Recv(); rv != nil {
+						rt := rv.Type()
+						if pt, isP := rt.(*types.Pointer); isP {
+							rt = pt.Elem()
+						}
+						if nt, isN := rt.(*types.Named); isN && !nt.Obj().Exported() {
+							unexp = true
+						}
+					}
+					if unexp {
+						idx := -1
+						for i, prm := range fn.Params {
+							if "param:"+prm.Name() == arg {
+								idx = i
+							}
+						}
+						sites, good := 0, 0
+						for _, caller := range c.P.SrcFuncs() {
+							for _, cs := range fw.Calls(caller) {
+								if cs.Common().StaticCallee() != fn || idx < 0 || idx >= len(cs.Common().Args) {
+									continue
+								}
+								sites++
+								a2 := fw.Sig(cs.Common().Args[idx])
+								if strings.HasPrefix(a2, "(gmsl.PDU).Version(") || strings.HasSuffix(a2, "input.RoomVersion") || strings.HasPrefix(a2, `"`) {
+									good++
+								}
+							}
+						}
+						if sites == 0 || good == sites {
+							if sites == 0 {
+								c.Undecided(rule, fmt.Sprintf("MustGetRoomVersion call in %s cannot fail", fw.FuncName(fn)), "the wrapper is reached only through an interface: what version it is given was not followed")
+							} else {
+								c.Ok(rule, fmt.Sprintf("MustGetRoomVersion call in %s cannot fail", fw.FuncName(fn)), c.P.Pos(call.Pos()), fmt.Sprintf("a wrapper; all %d call sites pass the version of a parsed event", sites))
+							}
+							continue
+						}
+					}
+				}
 				c.Check(ok, rule, fmt.Sprintf("MustGetRoomVersion call in %s cannot fail", fw.FuncName(fn)), c.P.Pos(call.Pos()), why, "MustGetRoomVersion is called with "+arg+", which is not the version of a parsed event: an unknown version panics")
 			case "gmsl/spec.NewUserIDOrPanic":
 				c.Fail(rule, fmt.Sprintf("NewUserIDOrPanic is not used in library code (%s)", fw.FuncName(fn)), c.P.Pos(call.Pos()), "NewUserIDOrPanic on a value that may come from the network")
